@@ -18,6 +18,13 @@ fn splitmix(state: &mut u64) -> u64 {
 }
 
 /// Mixes the base seed, a property tag and a run index into one stream seed.
+/// 2^40 where `usize` has 64 bits, `usize::MAX / 2` on 32-bit targets (Miri cross-target runs).
+pub const TWO_POW_40: usize = {
+    let v = 1u64 << 40;
+    let m = (usize::MAX / 2) as u64;
+    (if v < m { v } else { m }) as usize
+};
+
 pub fn mix(seed: u64, tag: &str, run: u64) -> u64 {
     let mut h = seed ^ 0x5851_f42d_4c95_7f2d;
     for &b in tag.as_bytes() {
